@@ -24,6 +24,7 @@ STR, STRLIST, DICT = "string", "(list string)", "(list (string * Q))"
 SCAL = "S"      # a scalar operand of a correlator operation (number or observable; abstract)
 ELT, OPTELT, CONTENT = "E", "(option E)", "(list (option E))"      # timeslice entries of a correlator (abstract element type E)
 VEC, VECLIST, MATX, PERMLIST = "V", "(list V)", "M", "(list (list Z))"      # eigenvectors / reference matrix of _sort_vectors (abstract)
+INTMAT = "(list (list Z))"      # a two-dimensional integer array (rows)
 DICTL = "(list (string * list Z))"      # a dictionary from strings to lists of ints
 MAT2 = "(list (list Q))"      # a two-dimensional numpy float array
 IDLMAP = "(string -> idl)"        # a dictionary name -> configuration list, read only (keys are iterated through an alias)
@@ -185,6 +186,12 @@ class Fn:
             t = self.fresh()
             binds.append((t, "py_mat_sub %s %s" % (a, b)))
             return t, MAT2
+        if ta == MAT2 and tb in (INT, FLOAT) and op is ast.Div:
+            return "(mat_div_s %s %s)" % (a, self.coerce(b, tb, FLOAT)), MAT2
+        if ta == MAT2 and tb == ARR and op is ast.MatMult:
+            t = self.fresh()
+            binds.append((t, "py_matvec %s %s" % (a, b)))
+            return t, ARR
         if ta == ARR and tb == MAT2 and op is ast.MatMult:
             t = self.fresh()
             binds.append((t, "py_vecmat %s %s" % (a, b)))
@@ -376,7 +383,7 @@ class Fn:
         env2[x] = tx
         b = []
         body, tb = self.expr(node.elt, env2, b)
-        out = {FLOAT: ARR, INT: INTLIST, BOOL: BOOLLIST, VEC: VECLIST}.get(tb)
+        out = {FLOAT: ARR, INT: INTLIST, BOOL: BOOLLIST, VEC: VECLIST, ARR: MAT2}.get(tb)
         if out is None:
             raise TranslateError("%s: list comprehension producing %s" % (self.name, tb))
         r = self.fresh()
@@ -410,6 +417,8 @@ class Fn:
             return t, OPTELT
         if ty == PERMLIST:
             return t, INTLIST
+        if ty == INTMAT:
+            return t, INTLIST
         if ty == IDLLIST:
             return t, IDL
         if ty == IDL:
@@ -429,7 +438,7 @@ class Fn:
             if isinstance(g, ast.Name):
                 parts.append(g.id)
                 dotted = ".".join(reversed(parts))
-        if node.keywords and not (fname in ("Corr",) or (fname == "list")):
+        if node.keywords and not (fname in ("Corr",) or (fname == "list") or dotted == "np.bincount"):
             raise TranslateError("%s: keyword arguments in a call" % self.name)
         if fname == "Corr" and len(node.args) == 1 and all(k.arg == "prange" for k in node.keywords):
             # the constructor is outside this translation: the new content is the result
@@ -557,6 +566,21 @@ class Fn:
             if tx != ARR or tp != INT:
                 raise TranslateError("%s: rfft arguments (%s, %s)" % (self.name, tx, tp))
             return "(py_fft_autocorr %s %s)" % (x, pp), ARR
+        if dotted == "np.bincount" and len(node.args) == 1 and [k.arg for k in node.keywords] == ["minlength"]:
+            t, ty = self.expr(node.args[0], env, binds)
+            m, tm = self.expr(node.keywords[0].value, env, binds)
+            if ty != INTLIST or tm != INT:
+                raise TranslateError("%s: np.bincount(%s, minlength=%s)" % (self.name, ty, tm))
+            r = self.fresh()
+            binds.append((r, "py_bincount %s %s" % (t, m)))
+            return r, ARR
+        if dotted == "np.vstack" and len(node.args) == 1:
+            t, ty = self.expr(node.args[0], env, binds)
+            if ty != MAT2:
+                raise TranslateError("%s: np.vstack(%s)" % (self.name, ty))
+            r = self.fresh()
+            binds.append((r, "py_vstack %s" % t))
+            return r, MAT2
         if dotted == "np.cumsum" and len(node.args) == 1:
             t, ty = self.expr(node.args[0], env, binds)
             if ty != ARR:
@@ -1195,6 +1219,15 @@ def frag_init_idl_list(fn):
     return body
 
 
+def frag_export_boot_core(fn):
+    """export_bootstrap from `proj = ...` on (the table of random numbers is given; its generation from the md5 seed is an oracle)."""
+    body = [st for st in fn.body if not (isinstance(st, ast.Expr) and isinstance(st.value, ast.Constant))]
+    start = [k for k, st in enumerate(body) if isinstance(st, ast.Assign) and isinstance(st.targets[0], ast.Name) and st.targets[0].id == "proj"]
+    if len(start) != 1:
+        raise TranslateError("export_bootstrap: the assignment of proj was not found exactly once")
+    return body[start[0]:]
+
+
 def frag_import_jack_samples(fn):
     """The statements of import_jackknife up to `samples = jacks[1:] @ prj`, returning samples."""
     body = [st for st in fn.body if not (isinstance(st, ast.Expr) and isinstance(st.value, ast.Constant))]
@@ -1263,6 +1296,10 @@ SIGS = [
          extra_params=[("v_nt", ARR), ("v_n", INT), ("v_e_N", INT)], env={"nt": ARR, "n": INT, "e_N": INT}),
     dict(coq="gamma_method_window_dvalue_sq", py="Obs.gamma_method", fragment=frag_window_dvalue_sq, params=[], ret=FLOAT, numpy_div=True,
          extra_params=[("v_tauint", FLOAT), ("v_gamma", ARR), ("v_e_N", INT)], env={"tauint": FLOAT, "gamma": ARR, "e_N": INT}),
+    dict(coq="export_bootstrap_core", py="Obs.export_bootstrap", fragment=frag_export_boot_core, params=[], ret=ARR,
+         extra_params=[("v_samples", INT), ("v_random_numbers", INTMAT), ("v_deltas", ARR), ("v_rmean", FLOAT), ("v_value", FLOAT)],
+         env={"samples": INT, "random_numbers": INTMAT},
+         aliases={"length": ("(zlen v_deltas)", INT), "self.deltas[name]": ("v_deltas", ARR), "self.r_values[name]": ("v_rmean", FLOAT), "self.value": ("v_value", FLOAT)}),
     dict(coq="_reduce_deltas", py="_reduce_deltas", params=[("deltas", ARR), ("idx_old", IDL), ("idx_new", IDL)], ret=ARR),
     dict(coq="covariance_calc_gamma", py="_covariance_element.calc_gamma", needs=["_reduce_deltas"],
          params=[("deltas1", ARR), ("deltas2", ARR), ("idx1", IDL), ("idx2", IDL), ("new_idx", IDL)], ret=FLOAT),
